@@ -4,6 +4,7 @@ import (
 	"fmt"
 
 	"github.com/olric-data/olric/internal/verif/clustermc"
+	"github.com/olric-data/olric/internal/verif/confx"
 	"github.com/olric-data/olric/internal/verif/core"
 	"github.com/olric-data/olric/internal/verif/kvops"
 	"github.com/olric-data/olric/internal/verif/simcluster"
@@ -11,7 +12,7 @@ import (
 
 func ev(k string, a, b int, s string) clustermc.Ev { return clustermc.Ev{K: k, A: a, B: b, S: s} }
 
-func c09Specs(tier string) []*clustermc.Spec {
+func c09Params(tier string) []*kvops.Params {
 	quick := tier != "thorough"
 	alpha := []clustermc.Ev{
 		ev("put", 0, 0, ""), ev("put", 0, 0, "NX"), ev("put", 0, 0, "XX"), ev("put", 0, 0, "PX"), ev("put", 0, 0, "EX"),
@@ -32,7 +33,7 @@ func c09Specs(tier string) []*clustermc.Spec {
 		alpha = append(alpha, ev("put", 0, 0, "NX+PX"), ev("put", 0, 0, "XX+EX"), ev("decr", 0, 1, ""), ev("del", 0, 0, ""))
 		cfs = append(cfs, cf{3, 2, "EN", false}, cf{3, 2, "CC", false}, cf{2, 1, "RN", false}, cf{1, 1, "EO", true})
 	}
-	var out []*clustermc.Spec
+	var out []*kvops.Params
 	for _, c := range cfs {
 		p := &kvops.Params{
 			Name:  fmt.Sprintf("N=%d R=%d entry=%s defaultTTL=%v", c.n, c.r, c.entry, c.ttl),
@@ -43,6 +44,14 @@ func c09Specs(tier string) []*clustermc.Spec {
 			p.DefaultTTL = 2500 * 1e6
 			p.Opts.TTL = p.DefaultTTL
 		}
+		out = append(out, p)
+	}
+	return out
+}
+
+func c09Specs(tier string) []*clustermc.Spec {
+	var out []*clustermc.Spec
+	for _, p := range c09Params(tier) {
 		out = append(out, kvops.Spec(p))
 	}
 	return out
@@ -53,7 +62,17 @@ func init() {
 	core.Register(&core.Check{ID: "C09", Level: "model_checking", Run: func(c *core.Ctx) {
 		c.Cov["rule"] = "BFS over sequences of {Put with every option form, Expire, Get, GetPut, Incr, clock ticks landing 1ms before / exactly at / after the deadlines, eviction pass} on one key through one entry point, on a fresh real cluster per transition under the virtual clock; every step result and, in every distinct state, a Get from every member are compared with a reference model with millisecond expiry; non-trivial = distinct states in which the key exists"
 		clustermc.RunFamily(c, "C09")
-		c.Cov["traces_validated_against_impl"] = 0
+		var traces []confx.Trace
+		perSpec := 250
+		if !c.Quick() {
+			perSpec = 1500
+		}
+		for _, p := range c09Params(c.Tier) {
+			if (p.Entry == "EO" || p.Entry == "EN" || p.Entry == "CC") && p.DefaultTTL == 0 {
+				traces = append(traces, kvops.ConformTraces(p, 3, perSpec)...)
+			}
+		}
+		confx.Replay(c, traces)
 		c.Assumef("virtual clock: deadlines are whole milliseconds and ticks are whole milliseconds, so no comparison falls inside the 1ms resolution of the stored expiry")
 	}})
 }
